@@ -29,7 +29,7 @@ def scenes(draw):
   n = draw(st.integers(6, 28))
   cols = draw(st.integers(2, 6))
   spacing = draw(mg.num(0.12, 0.5))
-  opt, optinfo = draw(mg.options(integrators=('Euler', 'implicitfast', 'implicit', 'RK4'), flags=False, islands=True,
+  opt, optinfo = draw(mg.options(integrators=('Euler', 'implicitfast', 'implicit', 'RK4'), flags=False, islands=True, stress=True,
                                  timestep=(0.001, 0.005), jacobians=('dense', 'sparse', 'auto')))
   bodies = ''
   for i in range(n):
